@@ -5,7 +5,10 @@
    (per open file description, released on last close / process death) are this model's
    assumptions; they are exhibited only by the racing-opens correspondence K9. *)
 From Cas Require Import OpenLock.
-From CasProofs Require Import OpenLockProofs.
+From Cas Require Import OpenLock2.
+From Coq Require Import List.
+Import ListNotations.
+From CasProofs Require Import OpenLockProofs OpenLock2Proofs.
 
 Theorem C11_at_most_one_live :
   forall evs : list ev,
@@ -52,5 +55,50 @@ Theorem C11_racing_opens :
     results (List.map EOpen (pid :: pids)) = (ROpened 0 :: List.repeat RAlreadyOpened (length pids))%list.
 Proof. exact OpenLockProofs.C11_racing_opens. Qed.
 Print Assumptions C11_racing_opens.
+
+
+(* ---- the two halves of an open interleaved with everything else (inode-level model OpenLock2) ----
+   open("LOCK", O_CREAT|O_TRUNC) and the flock on the descriptor are separate steps (scheduling
+   point `open.flock`); other opens, drops and kills happen in between.  As long as the NAME
+   LOCK is never unlinked - the code never does - there is only one inode and: *)
+Theorem C11_exclusive_under_any_interleaving :
+  forall evs : list ev2, no_unlink evs ->
+    length (handles2 (run2 init2 evs)) <= 1
+    /\ (forall h, List.In h (handles2 (run2 init2 evs)) ->
+          name_ino (run2 init2 evs) = Some (h2_ino h)
+          /\ List.In (h2_ino h, h2_id h) (locks (run2 init2 evs))).
+Proof. exact OpenLock2Proofs.C11_exclusive_under_any_interleaving. Qed.
+Print Assumptions C11_exclusive_under_any_interleaving.
+
+(* an open that obtained its descriptor while the owner was alive loses against an open that
+   arrives after the owner went away (and changes nothing) *)
+Theorem C11_late_locker_loses :
+  forall (s : st2) (h : handle2) (tokB pidB pidC : nat),
+    reachable2 s -> handles2 s = [h]%list -> h2_refs h = 1 ->
+    results2_from s [E2OpenFd tokB pidB; E2Drop (h2_id h); E2Open pidC; E2Lock tokB]%list
+    = [RNone; RNone; ROpened (next_id2 s); RAlreadyOpened]%list.
+Proof. exact OpenLock2Proofs.C11_2_late_locker_loses. Qed.
+Print Assumptions C11_late_locker_loses.
+
+Theorem C11_loser_changes_nothing_2 :
+  forall (s : st2) (e : ev2), reachable2 s -> snd (step2 s e) = RAlreadyOpened ->
+    let s' := fst (step2 s e) in
+    handles2 s' = handles2 s /\ locks s' = locks s /\ content2 s' = content2 s /\ name_ino s' = name_ino s
+    /\ dirs2 s' = dirs2 s /\ next_id2 s' = next_id2 s /\ next_ino s' = next_ino s
+    /\ (forall q, List.In q (pend s') -> List.In q (pend s)).
+Proof. exact OpenLock2Proofs.C11_2_loser_noninterference. Qed.
+Print Assumptions C11_loser_changes_nothing_2.
+
+(* the inode-level model refines the atomic one used above *)
+Theorem C11_inode_model_refines_atomic_model :
+  forall evs : list ev, results2 (List.map embed evs) = results evs.
+Proof. exact OpenLock2Proofs.C11_2_refines_atomic. Qed.
+Print Assumptions C11_inode_model_refines_atomic_model.
+
+(* what the theorems rely on: if the name LOCK is unlinked while an open holds a descriptor of
+   the old inode, two handles are live at once (vm_compute witness; the correspondence check
+   observes after every event that the name is still bound) *)
+Example C11_unlinking_the_name_breaks_exclusivity := OpenLock2Proofs.C11_2_unlink_breaks_exclusivity.
+Example C11_lockfile_name_stays_bound := OpenLock2Proofs.C11_2_lockfile_stays.
 
 Example C11_nonvacuous := OpenLockProofs.ex_run.
